@@ -180,6 +180,29 @@ def observe(inst, r: int, api: str, variant: int, shuffle_inputs=False, feature=
     return run_api(b, api, r)
 
 
+def observe_history(inst, variant: int, shuffle_inputs=False):
+    """sort -> rewire in place -> sort again, on the SAME objects: the first sort's result becomes the order of a new
+    instance whose first node of some graph additionally consumes an output of that graph's last node (node lists
+    untouched by the edit).  Returns (new instance, runs) for TLC to judge against SortedAt(new instance, 1), or None."""
+    b = build(inst, variant, shuffle_inputs)
+    out1, after1, _ = run_api(b, "graph", 1)
+    if out1 != "ok":
+        return None
+    gOf, owner, _order, ins = inst
+    pick = next((m for m in after1 if len(m) >= 2), None)
+    if pick is None:
+        return None
+    a, c = pick[0], pick[-1]
+    node_a, node_c = b.nodes[a - 1], b.nodes[c - 1]
+    k = len(node_a.inputs)
+    node_a.resize_inputs(k + 1)
+    node_a.replace_input_with(k, node_c.outputs[0])
+    ins2 = [list(x) for x in ins]
+    ins2[a - 1] = ins2[a - 1] + [c]
+    out2, after2, _ = run_api(b, "graph", 1)
+    return [gOf, owner, after1, ins2], [["graph", 0, out2, after2]]
+
+
 def expected_of(inst, res_r):
     """TLC's result for one start graph -> (outcome, orders)."""
     if res_r == 0:
@@ -208,7 +231,7 @@ def process_lines(args):
     out = {
         "instances": 0, "runs": 0, "mismatch": [], "sample": [], "keys": set(), "nontrivial": 0,
         "c14": {"changed": 0, "flag_false_but_changed": 0, "flag_true_unchanged": 0, "sub_only_false": 0, "example": None},
-        "errors": [],
+        "errors": [], "history": [],
     }
     for idx, line in lines:
         try:
@@ -256,6 +279,15 @@ def process_lines(args):
                             c["example"] = {"inst": inst, "after": got[1], "api": api, "modified": got[2]}
                 if (not changed) and got[2] is True:
                     c["flag_true_unchanged"] += 1
+        if idx % 5 == 0 and len(out["history"]) < max_obs and res[0] != 0:
+            try:
+                h = observe_history(inst, variant_of(seed, inst, 9), shuffle_inputs)
+            except Exception as e:  # noqa: BLE001
+                out["errors"].append(f"{type(e).__name__}: {e} on {inst} (history)")
+                h = None
+            if h is not None:
+                out["runs"] += 1
+                out["history"].append([h[0], 1, h[1], {"history_of": inst}])
         for r, entries in bad.items():
             if len(out["mismatch"]) < max_obs:
                 out["mismatch"].append([inst, r, entries + good.get(r, [])])
